@@ -143,6 +143,29 @@ CLAIMED = {
         technique='abstract interpretation of the eliminator per shape '
                   '(structure preservation, provenance), guard dominance, '
                   'rewrite validity by normal form'),
+    'C04': dict(
+        partial=True,
+        text='By composition; the agreement of the three checkers itself '
+             '(a relation between run-time results) is NOT decided. Decided '
+             'are the code-shape clauses that are necessary conditions of '
+             'the named laws of C04, all of them rules about the checkers: '
+             'the CTL handlers of Not/Or/EX/EU/EG equal complement / union '
+             '/ pre-image / fixpoints on every structure with <= 3 states '
+             'and do not modify memoised child sets (Boolean and fixpoint '
+             'laws); every CTL rewrite rule (And, Imply, AX, AF, AG, AU, AR, '
+             'EF, ER) is valid and LNot has odd parity (A g = not E not g); '
+             'LTL computes A g as the complement of E not g and the parts of '
+             'its tableau satisfy their necessary conditions; CTL* delegates '
+             'to CTL/LTL on the processed formula; compute_SCCs satisfies '
+             'the necessary conditions EG and the tableau rely on; each '
+             'modelcheck parses text with the parser of its own logic.',
+        ref='3-C04',
+        note='trusted: as for C01-C03; agreement follows from exactness of '
+             'the three checkers, which is only partially decided',
+        technique='composition of the abstract-interpretation / bounded '
+                  'summary-equivalence rules of C01, C02, C03, C05, C10, C12 '
+                  'that are necessary conditions of a named law of C04 '
+                  '(table in pmcv/rules/c04.py)'),
     'C05': dict(
         text='Every rewriter (get_equivalent_restricted_formula of each '
              'alphabet class of CTL*, LTL, CTL; 41 rule instances) is '
@@ -405,12 +428,7 @@ CLAIMED = {
 
 NOT_YET = {}
 
-NA = {
-    'C04': 'relations between run-time results of three procedures over all '
-           'K and f; the only code-shape facts behind them are decided under '
-           'C01-C03/C08; static analysis has no necessary structural clause '
-           'of C04 itself',
-}
+NA = {}
 
 
 def main():
